@@ -71,6 +71,9 @@ pub struct RetryCase {
     /// inner calls use up the task's cooperative budget in the poll they complete in
     #[serde(default)]
     pub drain_budget: bool,
+    /// every kind of event listener is registered on the layer
+    #[serde(default)]
+    pub listeners: bool,
 }
 
 fn one() -> u64 {
@@ -117,10 +120,10 @@ fn case_strategy(_tier: Tier) -> BoxedStrategy<RetryCase> {
         budget,
         prop::collection::vec(request, 1..=4),
         prop::collection::vec(any::<u8>(), 0..=32),
-        (prop_oneof![5 => Just(1u64), 1 => Just(2u64), 1 => Just(5u64), 1 => 2u64..=40], 0u8..8, prop::bool::weighted(0.2)),
+        (prop_oneof![5 => Just(1u64), 1 => Just(2u64), 1 => Just(5u64), 1 => 2u64..=40], 0u8..8, prop::bool::weighted(0.2), prop::bool::weighted(0.3)),
     )
         .prop_map(
-            |(max_attempts, per_request, backoff, predicate, budget, requests, order, (step_ms, setter_order, drain_budget))| RetryCase {
+            |(max_attempts, per_request, backoff, predicate, budget, requests, order, (step_ms, setter_order, drain_budget, listeners))| RetryCase {
                 max_attempts,
                 per_request,
                 backoff,
@@ -131,6 +134,7 @@ fn case_strategy(_tier: Tier) -> BoxedStrategy<RetryCase> {
                 step_ms,
                 setter_order,
                 drain_budget,
+                listeners,
             },
         );
     // long outage: one request retried 40-80 times against a capped exponential (or tiny fixed)
@@ -167,6 +171,7 @@ fn case_strategy(_tier: Tier) -> BoxedStrategy<RetryCase> {
             step_ms: 1,
             setter_order: 0,
             drain_budget: false,
+            listeners: false,
         });
     prop_oneof![14 => general, 1 => long].boxed()
 }
@@ -253,6 +258,14 @@ async fn interp(case: &RetryCase) -> Verdict {
     let inner = Scripted::from_table(log.clone(), table, Step::ok(0));
 
     let mut b = RetryLayer::<Req, SErr>::builder().name("vcheck");
+    if case.listeners {
+        b = b
+            .on_retry(|_, _| {})
+            .on_success(|_| {})
+            .on_error(|_| {})
+            .on_ignored_error(|| {})
+            .on_budget_exhausted(|_| {});
+    }
     // builder call order: bit 0 predicate before the back-off setter, bit 1 max_attempts last,
     // bit 2 budget before the back-off setter (setters are documented as order-independent)
     let (pred_first, attempts_last, budget_first) = (
